@@ -35,14 +35,16 @@ def known_findings(ctx):
             out.append(f)
             if not any(x.get("id") == f["id"] for x in ctx.known.setdefault("findings", [])):
                 ctx.known["findings"].append(f)
-    return sorted(f["id"] for f in out)
+    # development aid (trying a fix in a scratch worktree, VERIF_REPO=...): ids to treat as fixed, i.e. NOT accepted
+    fixed = set(filter(None, os.environ.get("X02_FIXED", "").split(",")))
+    return sorted(f["id"] for f in out if f["id"] not in fixed)
 
 
 def plan(quick):
     """(family, N, K) instances of MC_Streaming."""
     if quick:
-        return [("plan", 5, 3), ("ctor", 5, 0), ("rm", 0, 0), ("fo", 3, 0), ("rec", 3, 1), ("rec", 3, 2), ("rec", 3, 3),
-                ("pool", 5, 1), ("pool", 5, 2), ("brk", 11, 0)]
+        return [("plan", 5, 3), ("ctor", 5, 0), ("rm", 0, 0), ("fo", 3, 0), ("rec", 3, 1), ("rec", 3, 3),
+                ("pool", 5, 1), ("pool", 5, 2), ("brk", 10, 0)]
     return [("plan", 6, 3), ("plan", 4, 4), ("ctor", 7, 0), ("rm", 0, 0), ("fo", 4, 0), ("rec", 4, 1), ("rec", 4, 2), ("rec", 4, 3),
             ("pool", 6, 1), ("pool", 6, 2), ("pool", 5, 3), ("brk", 13, 0)]
 
@@ -200,6 +202,9 @@ def run(ctx):
         return replay(ctx, kd)
     # ---- model checking + program generation, families in parallel
     insts = plan(ctx.quick)
+    only = set(filter(None, os.environ.get("X02_ONLY", "").split(",")))      # development aid: a subset of the families
+    if only:
+        insts = [t for t in insts if t[0] in only]
     with ThreadPoolExecutor(max_workers=max(2, min(lib.NCPU, 6))) as ex:
         outs = list(ex.map(lambda t: mc_one(ctx, *t), insts))
     allp = ctx.path("prog_all.ndjson")
@@ -225,10 +230,11 @@ def run(ctx):
         if i is not None:
             s, e = lib.run_of_line(ls, i + 1)
             ctx.cov["samples"].append({"source": "MC_Streaming", "trace": [json.loads(x) for x in ls[s:e]]})
-    selftest(ctx, trace, kd)
+    if not only:
+        selftest(ctx, trace, kd)
     os.remove(trace)
     # ---- seeded random programs: large offsets (2^24-byte hulls at 0, 2^32, top of u64), bandwidth-scaled thresholds, long pool histories
-    nrand = 4000 if ctx.quick else 40000
+    nrand = 2500 if ctx.quick else 40000
     rtrace = ctx.path("trace_random.ndjson")
     dump = ctx.path("prog_random.ndjson")
     d = lib.run_driver(DRV, ["--random", nrand, "--out", rtrace, "--dump-programs", dump], env={"VERIF_SEED": ctx.seed})
